@@ -1088,6 +1088,11 @@ def rule_dedup_trackers_distinct(db: ProgramDB) -> List[Instance]:
                 out.append(inst("DEDUP-TRACKERS-DISTINCT", HOLDS if ok else VIOLATION, fn, f"{fn.short}[{unparse(e)[:50]}]",
                                 "two trackers, one per truth" if ok else
                                 f"`{unparse(e)}` uses one object for the true and the false rows: a false row marks its values as seen among the true rows", line=e.lineno))
+            # {k: SeenSet() for k in (True, False)}: the value expression is evaluated per key
+            if isinstance(e, ast.DictComp) and is_tracker_ctor(e.value) and len(e.generators) == 1 and isinstance(e.generators[0].iter, (ast.Tuple, ast.List, ast.Set)) \
+                    and all(isinstance(k, ast.Constant) and isinstance(k.value, bool) for k in e.generators[0].iter.elts):
+                n += 1
+                out.append(inst("DEDUP-TRACKERS-DISTINCT", HOLDS, fn, f"{fn.short}[{unparse(e)[:50]}]", "one tracker per truth (the value is evaluated per key)", line=e.lineno))
             if isinstance(e, ast.Call) and (dotted(e.func) or "").endswith("fromkeys") and len(e.args) == 2 and is_tracker_ctor(e.args[1]):
                 n += 1
                 out.append(inst("DEDUP-TRACKERS-DISTINCT", VIOLATION, fn, f"{fn.short}[{unparse(e)[:50]}]",
